@@ -11,6 +11,7 @@ import XotModel.Lemmas.CompareVariants
 import XotModel.Lemmas.CompareRel
 import XotModel.Lemmas.CompareShallow
 import XotModel.Lemmas.CompareText
+import XotModel.Lemmas.CompareStrip
 
 namespace XotModel.Props
 open XotModel
@@ -244,5 +245,66 @@ example : deepEqual (.node (.attribute 3 ['v']) []) (.node (.attribute 4 ['w']) 
 example : stringValue {} (.node (.element 2) [.node (.attribute 3 ['v']) [], .node (.text ['x']) [],
     .node (.element 3) [.node (.text ['y']) []], .node (.comment ['c']) []]) = ['x', 'y'] :=
   (C13_string_value {} _ (by decide) (by decide) (Or.inr ⟨2, rfl⟩)).trans rfl
+
+/-! ### deep_equal_xpath = the plain comparison of the trees without comments and PIs -/
+
+/-- Deleting the comments and PIs (leaves) below a normal root of a tree with well-ordered children
+    and unique attribute names gives a structurally valid tree. -/
+theorem C13_stripped_valid (a : Tree) (na : a.value.isNormal = true) (va : a.validRootFor xpathKeep = true)
+    (da : a.noInnerDocument = true) : a.stripCommentsPis.valid = true := by
+  rw [strip_eq_discard a da]; exact valid_discard_of_validRootFor xpathKeep a na va
+
+/-- `deep_equal_xpath(a, b, cmp)` on element/element or document/document IS
+    `advanced_deep_equal(strip a, strip b, |_| true, cmp)`: the unfiltered comparison, with the
+    supplied text comparison, of the trees with every comment and PI below the compared nodes
+    deleted.  Nothing is merged: where a comment separated two text nodes the stripped tree has two
+    adjacent text nodes, and they are compared as two nodes (see `C13_xpath_no_text_merge`).
+    Hypotheses: children well ordered, attribute names unique, comments / PIs / attribute /
+    namespace nodes are leaves (`validRootFor xpathKeep`); no document node below the root. -/
+theorem C13_xpath_stripped_cmp (cmp : TextCmp) (a b : Tree) (va : a.validRootFor xpathKeep = true)
+    (vb : b.validRootFor xpathKeep = true) (da : a.noInnerDocument = true) (db : b.noInnerDocument = true)
+    (h : (a.value.isElement = true ∧ b.value.isElement = true) ∨ (a.value = .document ∧ b.value = .document)) :
+    deepEqualXpath cmp a b = advancedDeepEqual (fun _ => true) cmp a.stripCommentsPis b.stripCommentsPis := by
+  have : deepEqualXpath cmp a b = advancedDeepEqual xpathFilter cmp a b := by
+    rcases h with ⟨ea, eb⟩ | ⟨da', db'⟩
+    · cases a with | node v ks => cases b with | node w js =>
+        cases v <;> cases w <;> simp_all [deepEqualXpath, Tree.value, Value.isElement]
+    · simp [deepEqualXpath, da', db']
+  rw [this, strip_eq_discard a da, strip_eq_discard b db]
+  exact xpath_eq_advanced_discard cmp a b va vb h
+
+/-- With `==` as the text comparison: `deep_equal_xpath(a, b, ==) = deep_equal(strip a, strip b)`,
+    "the same relation after discarding comments and PIs below the compared nodes". -/
+theorem C13_xpath_stripped (a b : Tree) (va : a.validRootFor xpathKeep = true)
+    (vb : b.validRootFor xpathKeep = true) (da : a.noInnerDocument = true) (db : b.noInnerDocument = true)
+    (h : (a.value.isElement = true ∧ b.value.isElement = true) ∨ (a.value = .document ∧ b.value = .document)) :
+    deepEqualXpath strEq a b = deepEqual a.stripCommentsPis b.stripCommentsPis :=
+  C13_xpath_stripped_cmp strEq a b va vb da db h
+
+/-- "Discarding" deletes nodes and merges nothing.  `<e>x<!--c-->y</e>` against `<e>xy</e>`:
+    `deep_equal_xpath` is false (the stripped tree has the two text children `x`, `y`), although
+    the string values agree and although removing the comment through `Xot::remove` (which
+    consolidates adjacent text) yields a tree `deep_equal` to `<e>xy</e>`.  Observed on /repo
+    (same answers).  This is XPath F&O 3.1 fn:deep-equal ("the presence of a comment … if it
+    causes a text node to be split into two text nodes, may affect the result"). -/
+theorem C13_xpath_no_text_merge :
+    let a := Tree.node (.element 2) [.node (.text ['x']) [], .node (.comment ['c']) [], .node (.text ['y']) []]
+    let b := Tree.node (.element 2) [.node (.text ['x', 'y']) []]
+    deepEqualXpath strEq a b = false ∧
+    a.stripCommentsPis = .node (.element 2) [.node (.text ['x']) [], .node (.text ['y']) []] ∧
+    deepEqual a.stripCommentsPis b = false ∧ stringValue {} a = stringValue {} b := by
+  intro a b
+  exact ⟨by decide, rfl, by decide, by decide⟩
+
+/-- `C13_xpath_stripped`: hypotheses satisfiable, both outcomes occur. -/
+example : deepEqualXpath strEq
+    (.node (.element 2) [.node (.attribute 3 ['v']) [], .node (.comment ['c']) [], .node (.text ['x']) []])
+    (.node (.element 2) [.node (.attribute 3 ['v']) [], .node (.text ['x']) [], .node (.pi 4 none) []]) = true := by
+  rw [C13_xpath_stripped _ _ (by decide) (by decide) (by decide) (by decide) (Or.inl ⟨rfl, rfl⟩)]
+  decide
+
+example : (Tree.node (.element 2) [.node (.attribute 3 ['v']) [], .node (.comment ['c']) [], .node (.text ['x']) []]
+    ).stripCommentsPis.valid = true :=
+  C13_stripped_valid _ (by decide) (by decide) (by decide)
 
 end XotModel.Props
